@@ -157,7 +157,7 @@ def drip_schedules():
 def collect(ctx, prop):
     quick = ctx.tier == "quick"
     rng = random.Random(ctx.seed * 271 + 17)
-    emit = ctx.path("emit.csv")
+    emit = ctx.path("emit-life.csv")
     r0 = mc(ctx, "{1, 2}", 2, emit) if quick else mc(ctx, "{1, 2, 3}", 2, emit)
     scheds = emitted_json_lines(emit)
     os.remove(emit)
